@@ -198,6 +198,23 @@ void prop(const Case& cs) {
     VF_CHECK(close(conv.get_composite_estimate(), sk[from].get_composite_estimate(), 1e-12), "convert-composite", who << ": composite estimate changed");
     VF_CHECK(close(conv.get_estimate(), sk[from].get_estimate(), 1e-12), "convert-estimate", who << ": estimate changed");
   }
+  // a converted copy is a sketch of the source's configuration in another register width: after reset() and the same short stream it is
+  // again in the same mode as the source treated the same way (a sketch started full size restarts full size, the others in coupon mode)
+  if (lg_k <= 14) {
+    const size_t nshort = std::min<size_t>(items.size(), 5);
+    for (int srcsel = 0; srcsel < 2; ++srcsel) for (int to = 0; to < 3; ++to) {
+      const hll_sketch& src = srcsel == 0 ? sk[type] : fs;
+      hll_sketch conv(src, static_cast<target_hll_type>(to));
+      hll_sketch again(src);
+      conv.reset(); again.reset();
+      for (size_t i = 0; i < nshort; ++i) { vf::feed(conv, items[i]); vf::feed(again, items[i]); }
+      std::string who = std::string(srcsel == 0 ? "" : "full-size ") + type_name(type) + "->" + type_name(to) + " copy after reset";
+      VF_CHECK(conv.is_empty() == again.is_empty(), "convert-reset", who << ": emptiness differs from the source treated the same way");
+      VF_CHECK(image_of(conv, true).mode == image_of(again, true).mode, "convert-reset", who << ": restarts in mode " << image_of(conv, true).mode << ", the source restarts in mode " << image_of(again, true).mode);
+      VF_CHECK(close(conv.get_composite_estimate(), again.get_composite_estimate(), 1e-12), "convert-reset", who << ": composite estimate " << conv.get_composite_estimate() << " vs " << again.get_composite_estimate());
+    }
+    vf::label("converted-copy-reset");
+  }
   // second presentation order
   if (!items.empty() && items.size() < 3000000) {
     std::vector<vf::Item> perm = items;
